@@ -95,6 +95,27 @@ WireName(ann) == IF ann.alias # "" THEN ann.alias ELSE ann.value
 InOf(kind) == CASE kind = "Path" -> "path" [] kind = "Query" -> "query" [] kind = "Header" -> "header"
                 [] kind = "FormField" -> "form" [] kind = "Body" -> "body" [] OTHER -> "?"
 
+\* the schema a Go type is documented with (validator keywords aside): primitives by kind, slices as arrays, string-keyed maps
+\* as objects with additionalProperties, every other named type as a reference to the component of that (bare) name
+IntTypes == {"int", "int8", "int16", "int32", "int64", "uint", "uint8", "uint16", "uint32", "uint64"}
+RECURSIVE LastDot(_, _)
+LastDot(t, i) == IF i = 0 THEN 0 ELSE IF Ch(t, i) = "." THEN i ELSE LastDot(t, i - 1)
+BareName(t) == SubSeq(t, LastDot(t, Len(t)) + 1, Len(t))
+IsMap(t) == Len(t) > 11 /\ SubSeq(t, 1, 11) = "map[string]"
+RECURSIVE TypeSchema(_)
+TypeSchema(t0) ==
+    LET t == IF Len(t0) > 0 /\ Ch(t0, 1) = "*" THEN SubSeq(t0, 2, Len(t0)) ELSE t0 IN
+    IF t = "string" THEN [k |-> "prim", t |-> "string", f |-> ""]
+    ELSE IF t \in IntTypes THEN [k |-> "prim", t |-> "integer", f |-> ""]
+    ELSE IF t = "bool" THEN [k |-> "prim", t |-> "boolean", f |-> ""]
+    ELSE IF t \in {"float32", "float64"} THEN [k |-> "prim", t |-> "number", f |-> ""]
+    ELSE IF t = "[]byte" THEN [k |-> "prim", t |-> "string", f |-> "base64"]
+    ELSE IF t = "time.Time" THEN [k |-> "prim", t |-> "string", f |-> "date-time"]
+    ELSE IF Len(t) >= 2 /\ SubSeq(t, 1, 2) = "[]" THEN [k |-> "array", items |-> TypeSchema(SubSeq(t, 3, Len(t)))]
+    ELSE IF IsMap(t) THEN [k |-> "map", value |-> TypeSchema(SubSeq(t, 12, Len(t)))]
+    ELSE [k |-> "ref", name |-> BareName(t)]
+NoSchema == [k |-> "none"]
+
 \* documented parameters: the non-context path/query/header parameters in SIGNATURE order
 RECURSIVE ExpParamsFrom(_, _)
 ExpParamsFrom(m, i) ==
@@ -104,7 +125,7 @@ ExpParamsFrom(m, i) ==
          IN  IF IsContext(s.type) \/ as = {} THEN ExpParamsFrom(m, i + 1)
              ELSE LET a == CHOOSE x \in as : TRUE IN
                   IF a.kind \in {"Path", "Query", "Header"}
-                  THEN <<[name |-> WireName(a), in |-> InOf(a.kind), required |-> RequiredParam(s, a), type |-> s.type]>> \o ExpParamsFrom(m, i + 1)
+                  THEN <<[name |-> WireName(a), in |-> InOf(a.kind), required |-> RequiredParam(s, a), schema |-> TypeSchema(s.type)]>> \o ExpParamsFrom(m, i + 1)
                   ELSE ExpParamsFrom(m, i + 1)
 ExpParams(m) == ExpParamsFrom(m, 1)
 
@@ -113,21 +134,21 @@ ExpBody(m) ==
         fs == {i \in DOMAIN m.sig : \E a \in AnnFor(m, m.sig[i].name) : a.kind = "FormField"}
     IN  IF bs # {} THEN LET i == CHOOSE x \in bs : TRUE
                             a == CHOOSE x \in AnnFor(m, m.sig[i].name) : x.kind = "Body"
-                        IN  [kind |-> "json", required |-> RequiredParam(m.sig[i], a), type |-> m.sig[i].type, fields |-> {}]
-        ELSE IF fs # {} THEN [kind |-> "form", required |-> FALSE, type |-> "",
+                        IN  [kind |-> "json", required |-> RequiredParam(m.sig[i], a), schema |-> TypeSchema(m.sig[i].type), fields |-> {}]
+        ELSE IF fs # {} THEN [kind |-> "form", required |-> FALSE, schema |-> NoSchema,
                               fields |-> { LET a == CHOOSE x \in AnnFor(m, m.sig[i].name) : x.kind = "FormField"
-                                           IN [name |-> WireName(a), required |-> RequiredParam(m.sig[i], a), type |-> m.sig[i].type] : i \in fs }]
-        ELSE [kind |-> "none", required |-> FALSE, type |-> "", fields |-> {}]
+                                           IN [name |-> WireName(a), required |-> RequiredParam(m.sig[i], a), schema |-> TypeSchema(m.sig[i].type)] : i \in fs }]
+        ELSE [kind |-> "none", required |-> FALSE, schema |-> NoSchema, fields |-> {}]
 
 \* success: @Response code if present, else 200 with the value type when (T, error), else 204 without content
 ReturnsValue(m) == Len(m.ret) = 2
 ExpSuccess(m) == [code |-> IF m.response # 0 THEN m.response ELSE IF ReturnsValue(m) THEN 200 ELSE 204,
-                  type |-> IF ReturnsValue(m) THEN m.ret[1] ELSE ""]
+                  schema |-> IF ReturnsValue(m) THEN TypeSchema(m.ret[1]) ELSE NoSchema]
 ErrorTypeOf(m) == IF m.ret = <<>> THEN "" ELSE m.ret[Len(m.ret)]
-ExpErrors(m) == {[code |-> e.code, type |-> IF ErrorTypeOf(m) = "error" THEN "Rfc7807Error" ELSE ErrorTypeOf(m)] : e \in Range(m.errors)}
+ExpErrors(m) == {[code |-> e.code, schema |-> IF ErrorTypeOf(m) = "error" THEN [k |-> "ref", name |-> "Rfc7807Error"] ELSE TypeSchema(ErrorTypeOf(m))] : e \in Range(m.errors)}
 
 ExpectedOperation(p, m) ==
-    [verb |-> Lower(m.verb), path |-> NormPath(CtrlOf(p, m), m), params |-> ExpParams(m), body |-> ExpBody(m),
+    [verb |-> Lower(m.verb), path |-> NormPath(CtrlOf(p, m), m), opId |-> m.name, params |-> ExpParams(m), body |-> ExpBody(m),
      success |-> ExpSuccess(m), errors |-> ExpErrors(m)]
 ExpectedOperations(p) == {ExpectedOperation(p, m) : m \in {x \in Range(p.methods) : IsApi(x) /\ ~x.hidden}}
 
@@ -147,13 +168,16 @@ ReturnsOk(p, m) ==
     /\ Len(m.ret) \in {1, 2}
     /\ LET e == m.ret[Len(m.ret)] IN e = "error" \/ \E ty \in TypeByName(p, e) : ty.kind = "struct" /\ ty.errorT
 
-WellLinked(p, m) ==
+\* asBuilt = TRUE models the gap of the link validator as built: an un-aliased @Path need not correspond to any placeholder
+\* (pinned by the repository's test/diagnostics expectations, hence recorded rather than repaired). The second gap found -
+\* placeholders of the controller prefix never checked - was repaired in the code and is no longer modelled.
+WellLinkedD(p, m, asBuilt) ==
     LET c    == CtrlOf(p, m)
         ph   == Placeholders(FullText(c, m))
         bind == [i \in PathAnns(m) |-> WireName(m.anns[i])]
     IN  /\ \A i, j \in DOMAIN ph : i # j => ph[i] # ph[j]                                   \* no duplicate {name}
         /\ \A x \in Range(ph) : Cardinality({i \in PathAnns(m) : bind[i] = x}) = 1           \* each {name} bound exactly once
-        /\ \A i \in PathAnns(m) : bind[i] \in Range(ph)                                      \* each @Path binds a {name}
+        /\ \A i \in PathAnns(m) : (asBuilt /\ m.anns[i].alias = "") \/ bind[i] \in Range(ph)  \* each @Path binds a {name}
         /\ \A i \in NonCtx(m) : Cardinality({j \in ParamAnns(m) : m.anns[j].value = m.sig[i].name}) = 1
         /\ \A j \in ParamAnns(m) : \E i \in NonCtx(m) : m.sig[i].name = m.anns[j].value
         /\ Cardinality({j \in ParamAnns(m) : m.anns[j].kind = "Body"}) <= 1
@@ -164,4 +188,5 @@ WellLinked(p, m) ==
                   /\ (IsSlice(m.sig[i].type) => m.anns[j].kind = "Query")
         /\ ReturnsOk(p, m)
         /\ m.verb \in SupportedVerbs
+WellLinked(p, m) == WellLinkedD(p, m, FALSE)
 =============================================================================
